@@ -50,12 +50,16 @@ Classes   C02.respell / C02.quoted: `stmt=<kind>,tok=<token>,form=<upper|capital
 from __future__ import annotations
 
 import ast
+import logging
 
 from mc import core
 from mc.ref import sf_ident as R
 
 PID = "C02"
 LEVEL = "exploration"
+
+# sqlglot warns on stderr about syntax it parses as a plain Command (CREATE TRANSIENT ..., ALTER DATABASE ...): noise here
+logging.getLogger("sqlglot").setLevel(logging.ERROR)
 
 DB, SCHEMA = "db1", "s1"
 
@@ -157,6 +161,8 @@ TEMPLATES = [
     T("merge_all", "MERGE",
       "merge into ~t using ~s on ~t.~k = ~s.~k when matched and ~s.~v = 'A' then update set ~v = ~s.~v "
       "when matched then delete when not matched and ~s.~k > 0 then insert (~k, ~v) values (~s.~k, ~s.~v)"),
+    T("merge_upd_const", "MERGE",
+      "merge into ~t using ~s on ~t.~k = ~s.~k when matched then update set ~v = 'mM'"),
     T("merge_ins", "MERGE",
       "merge into ~t using ~s on ~t.~k = ~s.~k when not matched then insert (~k, ~v) values (~s.~k, 'nN')"),
     # ---- DDL ----
@@ -202,7 +208,10 @@ TEMPLATES = [
     T("alter_set_comment", "ALTER", "alter table ~t set comment = 'cM'"),
     T("alter_cluster", "ALTER", "alter table ~t cluster by (~k)"),
     T("alter_view_rename", "ALTER", "alter view ~vw rename to ~vw2", fx=[("rename", "vw", "vw2")]),
+    T("alter_schema_rename", "ALTER", "alter schema ~s2 rename to ~s5", fx=[]),  # unsupported today: fails in every spelling
+    T("alter_database_rename", "ALTER", "alter database ~db2 rename to ~db5", fx=[]),  # ditto
     T("comment_on", "COMMENT", "comment on table ~t is 'cM'"),
+    T("comment_on_column", "COMMENT", "comment on column ~t.~k is 'cK'"),
     # ---- context ----
     T("use_schema", "USE", "use schema ~s2", fx=[("use_schema", "s2")]),
     T("use_schema_fq", "USE", "use schema ~db1.~s2", fx=[("use_schema", "db1.s2")]),
@@ -279,6 +288,9 @@ TEMPLATES = [
     T("fn_sample", "FUNCTION", "select count(*) as ~n from ~t sample (50) seed (1)", ["n"]),
     T("fn_tablesample", "FUNCTION", "select ~k from ~t tablesample bernoulli (100) order by ~k", ["k"], True),
     T("fn_random", "FUNCTION", "select random(3) as ~r", ["r"]),
+    # ---- connect(database=, schema=): the two arguments behave like unquoted identifiers (no statement: the pair is
+    #      re-spelled, then CONNECT_PROBE is executed) ----
+    T("connect_args", "CONNECT", "db1 s1", ["k"], True),
     # ---- failing statements: error or success must not depend on the spelling either ----
     T("err_no_table", "ERROR", "select ~k from ~nope"),
     T("err_no_column", "ERROR", "select ~nocol from ~t"),
@@ -286,6 +298,7 @@ TEMPLATES = [
     T("err_drop_missing", "ERROR", "drop table ~nope"),
     T("err_conversion", "ERROR", "insert into ~t (~k) values ('notanint')"),
 ]
+CONNECT_PROBE = "select k from t order by k"
 TPL = {t.id: t for t in TEMPLATES}
 assert len(TPL) == len(TEMPLATES)
 
@@ -362,12 +375,12 @@ PK_CLEAN = 'delete from "DB1"."S1"."PK" where "ID" = 99'
 class Session:
     """A fresh in-memory instance with one connection, after the PRELUDE."""
 
-    def __init__(self, probe_base: bool):
+    def __init__(self, probe_base: bool, database: str = DB, schema: str = SCHEMA):
         import fakesnow.instance as inst
         from snowflake.connector.cursor import DictCursor
 
         self.fs = inst.FakeSnow()
-        self.conn = self.fs.connect(database=DB, schema=SCHEMA)
+        self.conn = self.fs.connect(database=database, schema=schema)
         cur = self.conn.cursor(DictCursor)
         for p, _fx in PRELUDE:
             cur.execute(p)
@@ -440,6 +453,18 @@ def execute(tid: str, sql: str, sweep: bool = False, sess: Session | None = None
     -> (outcome by facet, sweep findings, the session if it may be used again else None)."""
     tpl = TPL[tid]
     shared = tpl.kind in SHARED_KINDS
+    if tpl.kind == "CONNECT":
+        # the "statement" is the pair of connect() arguments; what is executed afterwards is fixed
+        database, schema = sql.split()
+        try:
+            sess, sql = Session(False, database, schema), CONNECT_PROBE
+        except Exception as e:  # noqa: BLE001  (connect or the prelude failed for this spelling: that is the outcome)
+            from mc.util import exc_info
+
+            ei = exc_info(e)
+            o = dict.fromkeys(FACETS)
+            o.update(status=("err",) + ei[1:4], msg=ei[4])
+            return o, None, None
     if sess is None:
         sess = Session(probe_base=shared)
     keep = False
@@ -546,7 +571,8 @@ def sweep_reports(conn, tpl: T, succeeded: bool = True):
             if R.judge_name(r, expected_names, verb) == "lower":
                 if r.lower() in SYSTEM_IGNORED or r.startswith("_fs_"):
                     continue
-                out.append((surface, "kind=lower,name=system-defined", True,
+                who = "information_schema" if r == "information_schema" else "other"
+                out.append((surface, f"kind=lower,name={who}", True,
                             {"reported": r, "what": what, "note": "a lower-case name that nobody wrote in quotes"}))
 
     # conn.database / conn.schema
@@ -568,7 +594,7 @@ def sweep_reports(conn, tpl: T, succeeded: bool = True):
         # information_schema.tables / columns / views of this database
         rows, err = _q(cur, f"select table_catalog, table_schema, table_name from {dq}.information_schema.tables")
         if rows is not None:
-            rows = [tuple(r.values()) for r in rows if r["table_catalog"] not in SYSTEM_IGNORED]
+            rows = [tuple(r.values()) for r in rows]  # by position: the keys' own case is a finding of its own
             here = [r for r in rows if r[0].upper() == d.upper()]
             judge("is.tables", {r[0] for r in here}, {d}, "table_catalog")
             judge("is.tables", {r[1] for r in here}, {o[1] for o in mine}, "table_schema")
@@ -579,7 +605,7 @@ def sweep_reports(conn, tpl: T, succeeded: bool = True):
             cur, f"select table_catalog, table_schema, table_name, column_name from {dq}.information_schema.columns"
         )
         if rows is not None:
-            rows = [tuple(r.values()) for r in rows if r["table_catalog"].upper() == d.upper()]
+            rows = [r for r in (tuple(x.values()) for x in rows) if r[0].upper() == d.upper()]
             judge("is.columns", {r[1] for r in rows}, {o[1] for o in mine}, "table_schema")
             for o in mine:
                 cols = [r[3] for r in rows if (r[1].upper(), r[2].upper()) == (o[1].upper(), o[2].upper())]
@@ -595,7 +621,7 @@ def sweep_reports(conn, tpl: T, succeeded: bool = True):
             judge("is.views", {r[1] for r in rows}, {o[1] for o in mine if o[3] == "view"}, "table_schema")
         rows, err = _q(cur, f"select database_name from {dq}.information_schema.databases")
         if rows is not None:
-            judge("is.databases", [r["database_name"] for r in rows], set(cat.databases()), "database_name")
+            judge("is.databases", [tuple(r.values())[0] for r in rows], set(cat.databases()), "database_name")
         # SHOW
         rows, err = _q(cur, f"show schemas in database {dq}")
         if rows is not None:
@@ -801,26 +827,34 @@ def _emit(acc, clause_root, tpl, groups, ref_text):
 def run(ctx: core.Ctx):
     ctx.rule = (
         "every statement template x every case re-spelling of its foldable tokens (quick: 4 whole-statement forms + "
-        "every single token in UPPER; thorough: + every single token Capitalised/alternating, all 2^t lower/UPPER assignments for t<=10, single+pair flips "
-        "above) x every quoted/unquoted re-spelling of its marked names, each on a fresh instance after the fixed "
-        "prelude and followed by the fixed postlude; compared facet by facet with the all-lower spelling; reporting "
-        "sweep over every name-carrying surface in the four whole-statement spellings. non-trivial = executed "
-        "spelling other than the reference"
+        "every single token in UPPER; thorough: + every single token Capitalised/alternating, all 2^t lower/UPPER "
+        "assignments for t<=10, single+pair flips above) x every quoted/unquoted re-spelling of its marked names, "
+        "each after the fixed prelude (fresh instance per spelling; read-only statement kinds share an instance that "
+        "the raw-DuckDB digest proves pristine before each use) and followed by the fixed postlude; compared facet by "
+        "facet with the all-lower spelling; reporting sweep over every name-carrying surface in whole-statement "
+        "spellings. non-trivial = distinct executed spelling whose text differs from the reference spelling of its "
+        "template (the reference itself is the trivial case)"
     )
     ctx.assumptions = [
         "sqlglot's Snowflake tokenizer finds token boundaries and literal kinds correctly (selftest/test_c02.py "
         "pins the classification of every token kind used in the templates)",
         "raw-DuckDB digest (mc/observe.catalog with views and data) captures the post-state",
         "row order is compared only where the template has ORDER BY",
+        "a statement of a read-only kind (SELECT, SHOW, DESCRIBE, information_schema query, function call, failing "
+        "statement) run on an instance whose catalogue, data, session context and variable probes equal the "
+        "pristine ones behaves as on a fresh instance; any execution after which they differ discards the instance",
     ]
     items, cata = plan(ctx.tier)
     res = ctx.pmap(work, items, chunk=1)
     by_tpl = {}
     absent = {}
+    order = {t.id: i for i, t in enumerate(TEMPLATES)}
+    res.sort(key=lambda r: (order[r[0][0]], r[0][1][0][0]))  # canonical order, whatever the seed rotation was
     for (tid, _texts), out in res:
         for text, df, detail, findings, own, status in out:
             by_tpl.setdefault(tid, {})[text] = (df, detail, status)
-            ctx.acc.nontrivial((tid, text))
+            if text != cata[tid]["ref"]:
+                ctx.acc.nontrivial((tid, text))  # an actual comparison: a spelling that differs from the reference
             for surface, cls, failed, det in own:
                 _report(ctx.acc, surface, cls, failed, det, tid, text)
             for rec in findings or ():
